@@ -5,7 +5,7 @@ import ast
 import re
 from fractions import Fraction
 
-from ..astu import U, S, has, same, walk_shallow, call_name, calls_in, monomial, mono_str, fold, NotLiteral
+from ..astu import U, S, has, same, walk_shallow, call_name, calls_in, monomial, mono_str, fold, NotLiteral, canon_expr, canon_of, canon_str, param_default
 from ..cfg import find_guards
 from ..core import AnalysisError, Mutant, Rule, Twin
 from ..dims import (V, TOP, num, opaque, mk_dim, dim_str, lx_const, units_ns, constants_ns, si_value, Namespace)
@@ -27,8 +27,10 @@ TECHNIQUE = "units-of-measure abstract interpretation of each relation in unit m
 CLAIM = ("Decides, for every relation in unit mode: additions/comparisons are dimensionally homogeneous, transcendental arguments are "
          "dimensionless, the result has the dimension of the quantity named, hard-coded and constants branches agree in dimension and "
          "magnitude (1e-4), no float()/int()/math.*/.magnitude reads a value that still carries a caller-chosen unit ratio; range warnings are "
-         "guarded by `warn` and by strict comparisons at the published validity limits; Henry inverse helpers are P*H and c/H.")
-DOES_NOT_DECIDE = "the published anchor values and shapes of the correlations, convergence of the fixed-point iteration, numpy transcendental functions raising on scaled dimensionless quantities (a loud refusal)"
+         "guarded by `warn` and by strict comparisons at the published validity limits; Henry inverse helpers are P*H and c/H; the algebraic form of "
+         "every correlation/relation (canonical sum-of-products form) and its coefficient tables equal the reference recorded from the cited publications "
+         "as transcribed in the pinned tree.")
+DOES_NOT_DECIDE = "numerical agreement with the publications beyond the coefficient tables and formula shapes frozen in C19-R5, the qualitative shape claims, convergence of the fixed-point iteration, numpy transcendental functions raising on scaled dimensionless quantities (a loud refusal)"
 ASSUMPTIONS = ["`quantities` unit/constant tables (introspected as the typing environment)", "`quantities` rescales the right operand of +/- to the left operand's unit",
                "validity ranges: Tanaka 0-40 C, Korson 0-100 C, Holz 0-100 C, Bradley-Pitzer 0-350 C, Myhre 0-50 C and w 0.1-0.9"]
 
@@ -301,14 +303,179 @@ def r4_inverse_helpers(ctx):
               "the unit-aware variant must delegate to Henry.__call__ (which passes its own Hcp, Tderiv and T0); found %s" % U(ret.value), node=ret)
     fn = ctx.func(HENRY, "Henry_H_at_T")
     ret = [n for n in walk_shallow(fn) if isinstance(n, ast.Return)][-1]
-    ctx.check(same(ret.value, "H * be.exp(Tderiv * (1 / T - 1 / T0))", scope=fn), HENRY + ":Henry_H_at_T", "van-t-Hoff", "H(T) must be H * exp(Tderiv * (1/T - 1/T0)); found %s" % U(ret.value), node=ret)
+    ctx.check(canon_expr(ret.value) == canon_of("H * exp(Tderiv * (1 / T - 1 / T0))"), HENRY + ":Henry_H_at_T", "van-t-Hoff", "H(T) must be H * exp(Tderiv * (1/T - 1/T0)); found %s" % U(ret.value), node=ret)
     ctx.check(has(fn, "T0 = 298.15 * K"), HENRY + ":Henry_H_at_T", "T0-default", "reference temperature default must be 298.15 K", node=fn)
+
+
+# ---- reference forms and coefficient tables (C19-R5) -------------------------
+# Source: the publication each module cites, as transcribed in the pinned tree (the docstrings give the DOI).  A coefficient is compared numerically
+# (1e-12 relative), a formula as a canonical sum-of-products form, so re-ordering operands, re-bracketing or renaming a local stays silent.
+REF_TABLES = {
+    (DENS, "a"): ["-3.983035 * K", "301.797 * K", "522528.9 * K * K", "69.34881 * K", "999.97495 * kg / m3"],
+    (PERM, "U"): ["342.79", "-0.0050866 / K", "9.469e-07 / K ** 2", "-2.0525", "3115.9 * K", "-182.89 * K", "-8032.5 * bar", "4214200.0 * K * bar", "2.1417 / K * bar"],
+}
+REF_CONSTS = {
+    VISC: {"A": 1.1709, "B": 0.001827, "C": 89.93, "eta20_cP": 1.0020},
+    DIFF: {"gamma": 2.063, "D0": 1.635e-8, "TS": 215.05, "dD0": 2.242e-11, "dTS": 1.2, "low_t_bound": 273.15, "high_t_bound": 373.15},
+}
+REF_MYHRE = [
+    [999.8426, 0.03345402, -0.005691304, 0, 0],
+    [547.2659, -5.300445, 0.01187671, 0.0005990008, 0],
+    [5262.95, 37.20445, 0.1201909, -0.004148594, 1.197973e-5],
+    [-62139.58, -287.767, -0.4064638, 0.01119488, 3.607768e-5],
+    [409029.3, 1270.854, 0.326971, -0.01377435, -2.633585e-5],
+    [-1596989, -3062.836, 0.1366499, 0.006373031, 0],
+    [3857411, 4083.714, -0.1927785, 0, 0],
+    [-5808064, -2844.401, 0, 0, 0],
+    [5301976, 809.1053, 0, 0, 0],
+    [-2682616, 0, 0, 0, 0],
+    [576428.8, 0, 0, 0, 0],
+]
+# function -> (expression to compare, reference form, locals to inline)
+REF_FORMS = [
+    (DENS, "water_density", "return", "a[4] * (1 - ((t + a[0]) ** 2 * (t + a[1])) / (a[2] * (t + a[3])))", ()),
+    (DENS, "water_density", "t", "T - T0", ()),
+    (VISC, "water_viscosity", "return", "eta20 * 10 ** ((A * (20 - t) - B * (t - 20) ** 2) / (t + C))", ()),
+    (DIFF, "water_self_diffusion_coefficient", "return", "_D0 * ((T / _TS) - 1) ** gamma", ()),
+    (PERM, "water_permittivity", "return", "U[0] * exp(U[1] * T + U[2] * T ** 2) + (U[3] + U[4] / (U[5] + T)) * log((U[6] + U[7] / T + U[8] * T + P) / (U[6] + U[7] / T + U[8] * T + 1000.0 * bar))", ("B", "C", "eps1000")),
+    (HENRY, "Henry_H_at_T", "return", "H * exp(Tderiv * (1 / T - 1 / T0))", ()),
+    (NERNST, "nernst_potential", "return", "(R * T) / (charge * F) * log(ratio)", ()),
+    (EINST, "electrical_mobility_from_D", "return", "D * charge * e / (kB * T)", ()),
+    (SULF, "density_from_concentration", "new_rho", "rho_cb(conc * molar_mass / rho, T, units=units, warn=warn, **kwargs)", ()),
+    (SULF, "density_from_concentration", "delta_rho@loop", "new_rho - rho", ()),
+]
+REF_DEFAULTS = [
+    (DENS, "water_density", "T", "298.15 * K"), (DENS, "water_density", "T0", "273.15 * K"),
+    (VISC, "water_viscosity", "T", "298.15 * K"), (VISC, "water_viscosity", "eta20", "eta20_cP * cP"),
+    (DIFF, "water_self_diffusion_coefficient", "T", "298.15 * K"),
+    (PERM, "water_permittivity", "T", "298.15 * K"), (PERM, "water_permittivity", "P", "1 * bar"),
+    (SULF, "sulfuric_acid_density", "T", "298.15 * K"), (SULF, "sulfuric_acid_density", "T0", "273.15 * K"),
+    (HENRY, "Henry_H_at_T", "T0", "298.15 * K"),
+    (SULF, "density_from_concentration", "atol", "0.001 * kg_per_m3"),
+    (SULF, "density_from_concentration", "molar_mass", "(1.00794 * 2 + 32.066 + 4 * 15.9994) * 0.001 * kg / mol"),
+]
+
+
+def _close(a, b):
+    return a == b or (abs(a - b) <= 1e-12 * max(abs(a), abs(b)))
+
+
+def r5_reference_forms(ctx):
+    from ..idioms import none_default
+    for rel, q, what, ref, inline in REF_FORMS:
+        fn = ctx.func(rel, q)
+        a = "%s:%s" % (rel, q)
+        env = {}
+        for nm in inline:
+            ds = [n for n in walk_shallow(fn) if isinstance(n, ast.Assign) and U(n.targets[0]) == nm]
+            if len(ds) != 1:
+                raise AnalysisError("%s: expected exactly one definition of `%s`" % (q, nm))
+            env[nm] = ds[0].value
+        if what == "return":
+            node = [n for n in walk_shallow(fn) if isinstance(n, ast.Return)][-1].value
+        else:
+            nm = what.split("@")[0]
+            ds = [n for n in walk_shallow(fn) if isinstance(n, ast.Assign) and U(n.targets[0]) == nm and not (isinstance(n.value, ast.BinOp) and "inf" in U(n.value))]
+            if what.endswith("@loop"):
+                ds = [d for d in ds if any(isinstance(w, ast.While) and any(x is d for x in ast.walk(w)) for w in walk_shallow(fn))]
+            if len(ds) != 1:
+                raise AnalysisError("%s: expected exactly one definition of `%s`" % (q, nm))
+            node = ds[0].value
+        # backend functions are compared by their bare name (be.exp, backend.log, math.exp -> exp)
+        got, want = canon_expr(node, env=env), canon_of(ref)
+        ctx.check(got == want, a, "form:" + what, "`%s` of %s must be %s (any algebraically re-ordered spelling); found %s" % (what, q, ref, canon_str(got)), node=node)
+    for rel, q, par, ref in REF_DEFAULTS:
+        fn = ctx.func(rel, q)
+        d = none_default(fn, par)
+        ctx.check(d is not None and canon_expr(d) == canon_of(ref), "%s:%s" % (rel, q), "default:" + par, "an omitted `%s` must default to %s (`if %s is None:`); found %s" % (
+            par, ref, par, U(d) if d is not None else None), node=fn)
+    for (rel, par), ref in REF_TABLES.items():
+        q = {DENS: "water_density", PERM: "water_permittivity"}[rel]
+        fn = ctx.func(rel, q)
+        d = none_default(fn, par)
+        ok = d is not None and isinstance(d, ast.Tuple) and len(d.elts) == len(ref)
+        if ok:
+            for i, (e, r_) in enumerate(zip(d.elts, ref)):
+                env = {"m3": ast.parse("m ** 3", mode="eval").body}
+                g, w = canon_expr(e, env=env), canon_expr(ast.parse(r_, mode="eval").body, env=env)
+                ctx.check(g == w, "%s:%s" % (rel, q), "coefficient:%s[%d]" % (par, i), "published coefficient %s[%d] is %s; found %s" % (par, i, r_, U(e)), node=e)
+        else:
+            ctx.violation("%s:%s" % (rel, q), "coefficients:" + par, "the default coefficient tuple `%s` (given coefficients must be used as given) has changed shape" % par, node=fn)
+    for rel, consts in REF_CONSTS.items():
+        m = ctx.mod(rel)
+        from ..astu import fold_module_tables
+        env = fold_module_tables(m.tree)
+        for nm, val in consts.items():
+            ctx.check(nm in env and isinstance(env[nm], (int, float)) and _close(float(env[nm]), val), rel, "constant:" + nm, "published parameter %s is %r; found %r" % (nm, val, env.get(nm)), node=None)
+    m = ctx.mod(SULF)
+    arr = m.assign("_data")
+    try:
+        data = fold(arr.args[0], {}) if isinstance(arr, ast.Call) else None
+    except NotLiteral:
+        data = None
+    ok = data is not None and len(data) == len(REF_MYHRE) and all(len(r_) == 5 for r_ in data)
+    if ok:
+        bad = [(i, j) for i in range(11) for j in range(5) if not _close(float(data[i][j]), float(REF_MYHRE[i][j]))]
+        ctx.check(not bad, SULF, "myhre-table", "coefficients a_ij of Myhre et al. (1998) changed at (i, j) = %s" % bad[:5], node=arr)
+    else:
+        ctx.violation(SULF, "myhre-table", "_data is no longer the literal 11 x 5 coefficient table", node=arr)
+    fn = ctx.func(SULF, "sulfuric_acid_density")
+    a = SULF + ":sulfuric_acid_density"
+    ctx.check(has(fn, "t_arr = np.array([float(t_degC) ** j for j in range(5)]).reshape((1, 5))") and has(fn, "w_arr = np.array([w ** i for i in range(11)]).reshape((11, 1))"), a, "powers",
+              "rho = sum_ij a_ij w**i t**j: t powers j = 0..4 along columns, w powers i = 0..10 along rows", node=fn)
+    ret = [n for n in walk_shallow(fn) if isinstance(n, ast.Return)][-1]
+    ctx.check(canon_expr(ret.value) == canon_of("np.sum((t_arr * w_arr) * _data) * kg / m3"), a, "form:return", "the density must be sum(t_arr * w_arr * _data) kg/m3; found %s" % U(ret.value), node=ret)
+    ctx.check(canon_expr([n for n in walk_shallow(fn) if isinstance(n, ast.Assign) and U(n.targets[0]) == "t_degC"][0].value) == canon_of("t / K"), a, "t_degC=t/K", "the number of degrees Celsius is t / K", node=fn)
+    fn = ctx.func(SULF, "density_from_concentration")
+    a = SULF + ":density_from_concentration"
+    ctx.check(has(fn, "while atol < abs(delta_rho):") and has(fn, "rho = new_rho") and has(fn, "iter_idx += 1") and has(fn, "if iter_idx > maxiter: raise NoConvergence("), a, "fixed-point-loop",
+              "iterate until |change| <= atol, refusing after maxiter iterations", node=fn)
+    ctx.check(has(fn, "delta_rho = float('inf') * kg_per_m3") and canon_expr([n for n in fn.body if isinstance(n, ast.Assign) and U(n.targets[0]) == "kg_per_m3"][0].value) == canon_of("kg * m ** -3"), a, "starts-unconverged",
+              "the first change is infinite (the loop runs at least once) and kg_per_m3 is kg/m**3", node=fn)
+    # without a units object every unit symbol is exactly the number 1 (so plain numbers are read in the documented units)
+    seen_fns = set()
+    for spec in FUNCS:
+        rel, q = spec[0], spec[1]
+        if (rel, q) in seen_fns:
+            continue
+        seen_fns.add((rel, q))
+        fn = ctx.func(rel, q)
+        arms = [n for n in fn.body if isinstance(n, ast.If) and U(n.test) == "units is None"]
+        for arm in arms:
+            plain = [b for b in arm.body if isinstance(b, ast.Assign)]
+            ok = bool(plain) and all(isinstance(b.value, ast.Constant) and b.value.value == 1 and type(b.value.value) is int for b in plain if isinstance(b.targets[0], ast.Name))
+            names1 = sorted(U(b.targets[0]) for b in plain if isinstance(b.targets[0], ast.Name))
+            names2 = sorted(U(b.targets[0]) for b in arm.orelse if isinstance(b, ast.Assign) and isinstance(b.targets[0], ast.Name))
+            simple = all(isinstance(b.targets[0], ast.Name) for b in plain)
+            if simple and names2:
+                ctx.check(ok and names1 == names2, "%s:%s" % (rel, q), "unit-symbols-are-1-without-units", "in the `units is None` arm every unit symbol must be the integer 1 and both arms must define the same symbols; "
+                          "found %s vs %s" % ([U(b) for b in plain], names2), node=arm)
+    fn = ctx.func(DIFF, "water_self_diffusion_coefficient")
+    a = DIFF + ":water_self_diffusion_coefficient"
+    for nm, ref in (("_D0", "D0 * m ** 2 * s ** -1"), ("_TS", "TS * K"), ("_dD0", "dD0 * m ** 2 * s ** -1"), ("_dTS", "dTS * K")):
+        ds = [n for n in walk_shallow(fn) if isinstance(n, ast.Assign) and U(n.targets[0]) == nm]
+        ctx.check(len(ds) == 1 and canon_expr(ds[0].value) == canon_of(ref), a, "form:" + nm, "`%s` must be %s" % (nm, ref), node=fn)
+    augs = {U(n.target): n for n in walk_shallow(fn) if isinstance(n, ast.AugAssign)}
+    ok = set(augs) == {"_D0", "_TS"} and all(isinstance(n.op, ast.Add) for n in augs.values()) and canon_expr(augs["_D0"].value) == canon_of("err_mult[0] * _dD0") and canon_expr(augs["_TS"].value) == canon_of("err_mult[1] * _dTS")
+    ctx.check(ok and has(fn, "if err_mult is not None:"), a, "error-multipliers", "with err_mult the parameters are shifted by +err_mult[0]*dD0 and +err_mult[1]*dTS", node=fn)
+    fn = ctx.func(VISC, "water_viscosity")
+    ds = [n for n in walk_shallow(fn) if isinstance(n, ast.Assign) and U(n.targets[0]) == "t"]
+    ctx.check(bool(ds) and canon_expr(ds[0].value) == canon_of("T - 273.15 * K"), VISC + ":water_viscosity", "form:t", "t = T - 273.15 K", node=fn)
+    fn = ctx.func(SCHU, "lg_solubility_ratio")
+    ret = [n for n in walk_shallow(fn) if isinstance(n, ast.Return)][-1]
+    lc = ret.value.args[0] if isinstance(ret.value, ast.Call) and call_name(ret.value) == "sum" and ret.value.args else None
+    ok = isinstance(lc, (ast.ListComp, ast.GeneratorExp)) and len(lc.generators) == 1 and not lc.generators[0].ifs and U(lc.generators[0].iter) == "electrolytes.items()"
+    if ok:
+        k_, v_ = [x.id for x in lc.generators[0].target.elts]
+        ok = canon_expr(lc.elt) == canon_of("(p_gas_rM[gas] / M + p_ion_rM[%s] / M) * %s" % (k_, v_))
+    ctx.check(ok, SCHU + ":lg_solubility_ratio", "form:return", "lg ratio = sum over ions of (h_gas + h_ion) * c_ion", node=ret)
 
 
 RULES = [
     Rule("C19-R1", r1_homogeneity, 20, "unit-mode homogeneity, result dimension, hard-coded vs constants branches"),
     Rule("C19-R2", r2_scale_safety, 12, "no raw-magnitude read of a value carrying a caller-chosen unit ratio"),
     Rule("C19-R3", r3_ranges, 24, "range warnings at the published limits, strict, guarded by warn"),
+    Rule("C19-R5", r5_reference_forms, 64, "formula shapes (canonical form), defaults and coefficient tables vs the cited publications as transcribed"),
     Rule("C19-R4", r4_inverse_helpers, 6, "Henry inverse helpers and van 't Hoff form"),
 ]
 
@@ -350,3 +517,16 @@ TWINS = [
     Twin("density-range-rewritten", [(DENS, "(_any(t < 0 * K) or _any(t > 40 * K))", "(_any(t > 40 * K) or _any(0 * K > t))")]),
     Twin("diffusion-commuted", [(DIFF, "_D0 = D0 * m ** 2 * s ** -1", "_D0 = D0 * m ** 2 / s")]),
 ]
+MUTANTS += [
+    Mutant("tanaka-coefficient-typo", [(DENS, "999.974950 * kg / m3", "999.974590 * kg / m3")], "C19-R5", "coefficient:a[4]"),
+    Mutant("viscosity-sign", [(VISC, "(A * (20 - t) - B * (t - 20) ** 2)", "(A * (20 - t) + B * (t - 20) ** 2)")], "C19-R5", "form:return"),
+    Mutant("nernst-log-divided", [(NERNST, "return (R * T) / (charge * F) * backend.log(ratio)", "return (R * T) / (charge * F) / backend.log(ratio)")], "C19-R5", "form:return"),
+    Mutant("kelvin-symbol-not-1", [(DIFF, "    if units is None:\n        K = 1\n", "    if units is None:\n        K = 1.0001\n")], "C19-R5", "unit-symbols"),
+    Mutant("myhre-entry", [(SULF, "[547.2659, -5.300445, 0.01187671, 0.0005990008, 0]", "[547.2659, -5.300445, 0.01187671, 0.0005990080, 0]")], "C19-R5", "myhre-table"),
+    Mutant("fixed-point-inverted", [(SULF, "new_rho = rho_cb(conc * molar_mass / rho, T,", "new_rho = rho_cb(conc * molar_mass * rho, T,")], "C19-R5", "form:new_rho"),
+]
+TWINS += [
+    Twin("tanaka-reordered", [(DENS, "return a[4] * (1 - ((t + a[0]) ** 2 * (t + a[1])) / (a[2] * (t + a[3])))", "return (1 - (a[1] + t) * (a[0] + t) ** 2 / (a[3] + t) / a[2]) * a[4]")]),
+    Twin("henry-reordered", [(HENRY, "return H * be.exp(Tderiv * (1 / T - 1 / T0))", "return be.exp((-1 / T0 + 1 / T) * Tderiv) * H")]),
+]
+
